@@ -13,7 +13,9 @@ THEOREMS = ["C03_pick_contrasts_partition", "C03_covered_exactly_once", "C03_abs
             "C03_simplify_preserves", "C03_example_two_factor", "C03_refuted_single_coding"]
 ASSUMPTIONS = ["complete-factorial replicated data; numeric columns are random integers (general position)",
                "rank of the oracle: numpy.linalg.matrix_rank on small well-conditioned matrices"]
-RULE = ("all families of <= 3 terms over {f, g, h, x, z} in every term order and factor order (sampled in the quick "
+RULE = ("every family of categorical terms over {f, g, h} and (thorough: every, quick: 300 sampled) family over four "
+        "two-level factors {f, g, h, c}, with and without intercept, in a random term and factor order; plus "
+        "families of <= 3 terms over {f, g, h, x, z} in every term order and factor order (sampled in the quick "
         "tier), with and without intercept, atoms swapped among variable / C / T / S / scale / poly / bs, on "
         "replicated complete-factorial frames with random level counts; non-trivial = design built; "
         "distinct = (formula, level counts)")
@@ -37,10 +39,46 @@ def _all_terms():
     return out
 
 
+def _lattice(rng, tier):
+    """families of categorical terms as SETS of subsets of the factors (the quantifier's 'all families over
+    four two-level factors'): every family over {f, g, h} (127 x with/without intercept) in both tiers; over
+    {f, g, h, c} a sample in the quick tier and every one of the 32767 x 2 in the thorough tier.  Term order
+    and factor order are drawn at random per family."""
+    out = []
+
+    def fams(vs):
+        subs = [s for r in range(1, len(vs) + 1) for s in itertools.combinations(vs, r)]
+        for mask in range(1, 2 ** len(subs)):
+            yield [subs[i] for i in range(len(subs)) if mask >> i & 1]
+
+    def emit(fam, vs, icpt, two_level):
+        fam = [list(t) for t in fam]
+        rng.shuffle(fam)
+        for t in fam:
+            rng.shuffle(t)
+        f = "y ~ " + ("" if icpt else "0 + ") + " + ".join(":".join(t) for t in fam)
+        nlev = {v: (2 if two_level else rng.choice([2, 3])) for v in vs}
+        fr = gen_dm.make_frame(rng, factorial=True, cats=list(vs), nlev=nlev, extra_cols=False, reps=2)
+        out.append({"formula": f, "frame": fr, "na": "drop", "kind": f"lattice{len(vs)}",
+                    "family": fam, "icpt": icpt})
+
+    for fam in fams(("f", "g", "h")):
+        for icpt in (True, False):
+            emit(fam, ("f", "g", "h"), icpt, False)
+    four = list(fams(("f", "g", "h", "c")))
+    if tier != "thorough":
+        four = rng.sample(four, 300)
+    for fam in four:
+        for icpt in ((True, False) if tier == "thorough" else (rng.random() < 0.6,)):
+            emit(fam, ("f", "g", "h", "c"), icpt, True)
+    return out
+
+
 def gen(rng, tier):
     terms = _all_terms()
-    cases = []
-    n = 60000 if tier == "thorough" else 1500
+    cases = _lattice(rng, tier)
+    n0 = len(cases)
+    n = n0 + (30000 if tier == "thorough" else 1200)
     seen = set()
     tries = 0
     while len(cases) < n and tries < 10 * n:
@@ -115,7 +153,7 @@ def reference_matrix(c, df, names):
         for atom in D.split_label(tname):
             var = re.sub(r"^[A-Za-z]*\(|[,)].*$", "", atom) if "(" in atom else atom
             var = var.split()[0]
-            if var in ("f", "g", "h"):
+            if var in ("f", "g", "h", "c"):
                 B = _indicators(df, var)
             else:
                 B = _numeric_cols(df, atom)
